@@ -413,6 +413,12 @@ def it_elems(eng, it, st, where, pc):
     """[(guard, value)] of the remaining elements, in order; closures are run through their MIR"""
     if it.kind == 'chain':
         return it_elems(eng, it.a, st, where, pc) + it_elems(eng, it.b, st, where, pc)
+    if it.kind == 'counted':
+        out, cnt = [], bv(0, 64)
+        for g, x in it_elems(eng, it.a, st, where, pc):
+            out.append((AND(g, z3.UGE(cnt, it.b.t)), x))
+            cnt = z3.simplify(cnt + z3.If(g, bv(1, 64), bv(0, 64)))
+        return out
     if it.kind == 'src':
         v = it.a
         out = []
@@ -541,9 +547,14 @@ def m_iter_next(eng, m, args, dest_ts, st, where):
             res = ite(has, mk_variant(oty, 'Some', [elem]), mk_variant(oty, 'None'))
         eng.write_ref(st, r, lambda old: It('src', v, z3.simplify(z3.If(has, idx + 1, idx))))
         return simp(res)
+    if it.kind == 'counted':
+        return _next_counted(eng, r, it, oty, st, where)
     # adaptor chain: the first enabled element; the source cursor moves just past the slot it came from
-    src = it_src(it)
-    elems = it_elems_slots(eng, it, st, where, st.pc)
+    try:
+        src = it_src(it)
+        elems = it_elems_slots(eng, it, st, where, st.pc)
+    except Unsupported:
+        return _next_counted(eng, r, It('counted', it, Sc(bv(0, 64))), oty, st, where)
     res = mk_variant(oty, 'None')
     newidx = src.a.len                                  # exhausted: cursor at the end
     taken = z3.BoolVal(False)
@@ -551,6 +562,28 @@ def m_iter_next(eng, m, args, dest_ts, st, where):
         res = ite(g, mk_variant(oty, 'Some', [x]), res)
         newidx = z3.If(g, bv(i + 1, 64), newidx)
     eng.write_ref(st, r, lambda old: it_with_src(it, It('src', src.a, z3.simplify(newidx))))
+    return simp(res)
+
+
+def _next_counted(eng, r, it, oty, st, where):
+    """general cursor: the iterator is (chain, number of elements already yielded); next() yields the element of the chain whose
+    ordinal among the enabled elements equals that number"""
+    chain, skip = it.a, it.b.t
+    elems = it_elems(eng, chain, st, where, st.pc)
+    res = mk_variant(oty, 'None')
+    found = z3.BoolVal(False)
+    cnt = bv(0, 64)
+    picks = []
+    for g, x in elems:
+        g = z3.simplify(g)
+        if z3.is_false(g):
+            continue
+        picks.append((AND(g, cnt == skip), x))
+        cnt = z3.simplify(cnt + z3.If(g, bv(1, 64), bv(0, 64)))
+    for c, x in reversed(picks):
+        res = ite(c, mk_variant(oty, 'Some', [x]), res)
+        found = OR(found, c)
+    eng.write_ref(st, r, lambda old: It('counted', chain, Sc(z3.simplify(z3.If(found, skip + 1, skip)))))
     return simp(res)
 
 
